@@ -35,7 +35,8 @@ pub const STATES: [&str; 4] = ["initial", "transfer pending", "transferred to P"
 /// number of privileged variants per contract
 pub fn n_variants(contract: u8) -> u8 {
     match contract {
-        0 => 10, // 5 UpdateConfig shapes + 3 ownership actions + 2 locked deposits topping up a named position
+        0 => 12, // 5 UpdateConfig shapes + 3 ownership actions + 2 locked deposits topping up a named position
+                 // + 2 plain deposits for the position's owner that name the position without an unlocking duration
         1 => 19, // 10 UpdateConfig fields + 3 ownership actions + 2 farm + 4 position
         2 => 4,  // UpdateConfig + 3 ownership actions
         _ => 3,  // 3 ownership actions
@@ -226,6 +227,9 @@ impl Engine for Matrix {
             PosWithdraw,
             /// a locked deposit through the pool manager that names an existing position
             PmTopUp,
+            /// a deposit with receiver = the position's owner that names the position but sends no
+            /// unlocking duration: not a lock, anybody may do it, and the position must not change
+            PmPlainNamed,
         }
         let pool0 = s.sim.pool_ids[0].clone();
         let pool_denoms: Vec<String> = s.sim.w.pool(&pool0).map(|i| i.pool_info.assets.iter().map(|c| c.denom.clone()).collect()).unwrap_or_default();
@@ -279,6 +283,23 @@ impl Engine for Matrix {
                 5 => (own(action(0, &s.sim.w.users[0]), 0), Kind::Transfer, vec![]),
                 6 => (own(action(1, &p), 0), Kind::Accept, vec![]),
                 7 => (own(action(2, &p), 0), Kind::Renounce, vec![]),
+                v @ (10 | 11) => {
+                    let one = v == 11 || pool_denoms.len() < 2;
+                    let f: Vec<Coin> = if one { vec![coin(2000, &pool_denoms[0])] } else { vec![coin(1000, &pool_denoms[0]), coin(1000, &pool_denoms[1])] };
+                    (
+                        serde_json::to_value(pm::ExecuteMsg::ProvideLiquidity {
+                            liquidity_max_slippage: None,
+                            swap_max_slippage: Some(Decimal::percent(50)),
+                            receiver: Some(s.sim.w.users[2].to_string()),
+                            pool_identifier: pool0.clone(),
+                            unlocking_duration: None,
+                            lock_position_identifier: Some(s.pos_id.clone()),
+                        })
+                        .unwrap(),
+                        Kind::PmPlainNamed,
+                        f,
+                    )
+                }
                 v => {
                     // 8: both assets, 9: one asset (the pool manager swaps half and then calls itself)
                     let one = v == 9 || pool_denoms.len() < 2;
@@ -353,7 +374,7 @@ impl Engine for Matrix {
         let mut funds = base_funds.clone();
         funds.sort_by(|a, b| a.denom.cmp(&b.denom));
         // (for the deposits an extra coin would be a third asset: those cells repeat the plain ones)
-        if c.funds && kind != Kind::PmTopUp {
+        if c.funds && kind != Kind::PmTopUp && kind != Kind::PmPlainNamed {
             funds.push(coin(1, "uom"));
             funds.sort_by(|a, b| a.denom.cmp(&b.denom));
         }
@@ -370,9 +391,12 @@ impl Engine for Matrix {
             Kind::PosClose | Kind::PosWithdraw => sender == pos_owner && !c.funds,
             // topping up through the delegate is still the position owner's action
             Kind::PmTopUp => sender == pos_owner,
+            // an ordinary deposit whose LP goes to the receiver
+            Kind::PmPlainNamed => true,
         };
         let _ = nonpayable;
         let what = Self::describe(c);
+        let positions_before: Vec<(String, String, bool)> = s.sim.w.all_positions(&pos_owner).into_iter().map(|p| (p.identifier, p.lp_asset.to_string(), p.open)).collect();
         let pre = Snapshot::take(&s.sim.w);
         let r = s.sim.w.exec(&sender, &target, &msg, &funds);
         let post = Snapshot::take(&s.sim.w);
@@ -386,6 +410,12 @@ impl Engine for Matrix {
         }
         if !ok && pre != post {
             return Err(format!("[C15] {what}: rejected but state changed: {}", pre.diff(&post).join("; ")));
+        }
+        if kind == Kind::PmPlainNamed {
+            let positions_after: Vec<(String, String, bool)> = s.sim.w.all_positions(&pos_owner).into_iter().map(|p| (p.identifier, p.lp_asset.to_string(), p.open)).collect();
+            if positions_after != positions_before {
+                return Err(format!("[C15] {what}: a deposit that is no lock (no unlocking duration) changed the positions of the account it named: {:?} -> {:?}", positions_before, positions_after));
+            }
         }
         // ownership moves only by propose + accept, or by renouncing
         let ownership: cw_ownable::Ownership<String> = match c.contract % 4 {
@@ -416,7 +446,7 @@ pub fn check(tier: Tier, seed: u64) -> PropReport {
         tier,
         seed,
         "exploration",
-        "complete enumeration of cells (contract in {pool manager, farm manager, epoch manager, fee collector}) x (every privileged message variant: each UpdateConfig field alone and combined, the feature toggle, UpdateOwnership Transfer/Accept/Renounce, farm Expand/Close, position Create-for-receiver/Expand/Close/emergency Withdraw, and locked deposits through the pool manager - with both assets and with one asset - that name an existing position; on odd payloads a stranger first tries to take the farm's / position's identifier over with a creation of their own) x (sender role: owner of record, proposed owner, stranger, farm owner, position owner, pool manager contract, farm manager contract) x (ownership state: initial, transfer pending, transferred, renounced) x (funds attached or not), each in a fresh world with a funded pool, a farm and a position; payload values (addresses, fees, durations, toggles) derived from a generated number; oracle: accepted iff the role table written from the property says so (owner-only messages only from the current owner and never with funds; Accept only from the proposed owner; farm Expand only the farm owner, Close the farm owner or the current contract owner; positions only their owner, with the pool manager as the only delegate for creating and topping up - and through that delegate only the position's owner tops up); rejected => complete snapshot unchanged; afterwards the Ownership query shows the owner the table predicts (moves only by propose+accept or renounce). Every cell is non-trivial; distinct by cell",
+        "complete enumeration of cells (contract in {pool manager, farm manager, epoch manager, fee collector}) x (every privileged message variant: each UpdateConfig field alone and combined, the feature toggle, UpdateOwnership Transfer/Accept/Renounce, farm Expand/Close, position Create-for-receiver/Expand/Close/emergency Withdraw, and locked deposits through the pool manager - with both assets and with one asset - that name an existing position, plus the same two deposits sent for the position's owner WITHOUT an unlocking duration (no lock: accepted from anybody, and the named position must not change); on odd payloads a stranger first tries to take the farm's / position's identifier over with a creation of their own) x (sender role: owner of record, proposed owner, stranger, farm owner, position owner, pool manager contract, farm manager contract) x (ownership state: initial, transfer pending, transferred, renounced) x (funds attached or not), each in a fresh world with a funded pool, a farm and a position; payload values (addresses, fees, durations, toggles) derived from a generated number; oracle: accepted iff the role table written from the property says so (owner-only messages only from the current owner and never with funds; Accept only from the proposed owner; farm Expand only the farm owner, Close the farm owner or the current contract owner; positions only their owner, with the pool manager as the only delegate for creating and topping up - and through that delegate only the position's owner tops up); rejected => complete snapshot unchanged; afterwards the Ownership query shows the owner the table predicts (moves only by propose+accept or renounce). Every cell is non-trivial; distinct by cell",
     );
     rep.assumptions = vec!["contracts run natively inside cw-multi-test; any address, including a contract's, can be used as a message sender".into()];
     let payloads: Vec<u32> = match tier {
